@@ -15,27 +15,46 @@ The model is the port of `ts_subtree_summarize_children` and of the leaf constru
 (`Model.lean`); `Summarized lang t` says every inner node of `t` carries what that port computes
 from its children — the correspondence check establishes exactly this for every dumped real tree.
 
-Clause → theorem
-* children contained in their parent (all trees, all positions) ........ `spans_nested`
-* children ordered and pairwise disjoint ............................... `siblings_ordered`
-* leaves + paddings tile the node: the children end exactly where the
-  parent ends, in bytes, rows and columns .............................. `tiles`
-* summaries: padding/size of the port are the direct sums .............. `summarize_padding_size`
-* advertised child / named-child / descendant counts = enumeration ..... `summarize_counts`
-* MISSING nodes are empty .............................................. `missing_empty`
-* has_error ⇔ ERROR/MISSING at or below ................................ `has_error_iff_partial`
-  (what `error_cost > 0` really detects), `has_error_full_false` (the full statement fails on the
-  unchanged code: an ERROR leaf has cost 0), `has_error_fixed_iff` (the full statement holds for
-  the repaired `ts_node_has_error` of fixes/C02-has-error-leaf.diff)
-* row/column = newline counting ....................................... `rowcol_by_newlines` (with
-  `yields_total`, `extentOf_snoc`): if every LEAF's padding and size measure consecutive pieces of the
-  text, every node's start/end computed by adding relative lengths is (offset, newline-counted point)
-* termination, local argument ............................................ `lex_skip_progress`,
-  `lex_skip_enter`, `lexLoop_skipping_terminates`, `lex_terminates`: the retry/error-skip loop of
-  `ts_parser__lex` (port `LexLoop.lean`, lexers abstract) returns within `len − start + 4` rounds
-* OPEN (judged on every real tree, not proved): termination of the GLR driver (version stack,
-  recovery, cost pruning); that the lexer's leaves do
-  measure the text (`Yields`, needs the lexer model); padding is skipped whitespace; literal tokens.
+Clause → theorem   (P = proved ∀-theorem over the port, tied by correspondence; P(h) = proved under a decidable hypothesis that is
+evaluated with the conclusion on every real tree; J = decided by the Lean judge on the implementation's output for every explored
+input, not proved; A = assumed)
+
+* "for any byte sequence … parsing TERMINATES and returns a tree" ............................ J + A, one local P:
+  - P (local, NOT tied): `lex_skip_progress`, `lex_skip_enter`, `lexLoop_skipping_terminates`, `lex_terminates` — the retry / error-skip
+    `for (;;)` of `ts_parser__lex` (hand port `LexLoop.lean`; the external scanner and the generated `ts_lex` are ONE abstract parameter)
+    returns within `len − start + 4` rounds, under A = `LexEnvOK` (a lexing attempt only moves forward and stays inside the text, skipping
+    a character before EOF consumes ≥ 1 byte).  `LexEnvOK` is an assumption about lexer.c / the generated lex function / user scanners;
+    the port is not compared with the C loop.
+  - J: every explored parse (≈4 800 per quick run: all zoo grammars × sentences, mutations, edits + re-parse, included ranges, 32 kinds of
+    special documents) returns a non-null tree (`termination:null`) while the REAL operation counter stays under a linear budget
+    (`termination:budget`): the runtime calls `ts_parser__check_progress` once per iteration of the main loop of `ts_parser__advance`
+    and per (scaled) iteration of `ts_parser__balance_subtree` and invokes the progress callback every 100 counted operations; the
+    explorer aborts at `200 + 40·len` callbacks, i.e. the parse used < (200 + 40·len)·100 counted operations (measured maximum
+    ≈ 0.05–0.1 callbacks per byte).  Loops that never reach the counter (inside `ts_lex`, a user scanner, `ts_parser__recover`,
+    `ts_parser__condense_stack`, reductions) are covered only by a wall-clock watchdog: 60 s (thorough: 300 s) ⇒ `termination:timeout`.
+  - NOT proved, not modelled: termination of the GLR driver (`ts_parser__advance` over the version stack, `ts_parser__recover`,
+    `ts_parser__condense_stack`, cost pruning) — no progress measure for it is stated; that a tree is always returned.
+* "every node lies inside the text" ........................................................... J (`contained`, `api:inside_text`);
+  P for the relative part: `spans_nested` (all `Sized` trees, all positions: children inside the parent, recursively)
+* "children are ordered, disjoint and contained in their parent" ............................. P: `siblings_ordered`, `spans_nested`,
+  `tiles` (children end exactly where the parent ends, bytes/rows/columns); after edits `edit_preserves_summaries`,
+  `edited_spans_nested` (C10); after rebalancing `balance_sized`, `balance_root_extent`.  J on the API: `api:child_in_parent`,
+  `api:siblings_ordered_disjoint`
+* "every row/column equals the position obtained by counting newlines" ....................... P(h): `rowcol_by_newlines` (+ `yields_total`,
+  `extentOf_snoc`) under h = `Yields` (every LEAF's padding and size measure consecutive pieces of the text) — h is about the lexer and
+  is NOT evaluated as such; the CONCLUSION is judged on every raw node of every tree (`rowcol`).  `balance_yields`: rebalancing keeps h
+* "every byte that is not skipped whitespace/extra lies inside a leaf" ....................... J only (`padding_skippable`,
+  `trailing_skippable`; two known findings of the lexer generator)
+* "a literal-string token node covers exactly that string" ................................... J only (`literal`; subject of C14)
+* "MISSING nodes are empty" ................................................................... P: `missing_empty` (constructor port); J `missing_empty`
+* "has_error exactly when it or a descendant is ERROR or MISSING" ............................ P(h) partial: `has_error_iff_partial`
+  / `cost_pos_iff` (what `error_cost > 0` detects, h = `Summarized` + `shapeOK`, both evaluated on every tree); the full clause is
+  FALSE on the unchanged code (`has_error_full_false`: ERROR leaf, known finding with fix) and P(h) for the repaired function
+  (`has_error_fixed_iff`)
+* "advertised child, named-child and descendant counts equal what enumeration finds" ......... P(h): `summarize_counts` (h as above);
+  kept by rebalancing: `compress_summarized`, `balance_summarized` (h = `balanceOK`, evaluated); J `count:*` through the API
+* summaries themselves (support) ............................................................... P: `summarize_padding_size`, `nodeOK_summarize`;
+  T-corr recomputes every cached summary of every inner node of every real tree
 
 Boundary conventions: positions are byte offsets of the start of a subtree's padding; the
 content of a node is `[pos + padding, pos + padding + size)`; "ERROR" means symbol 65535
